@@ -491,7 +491,8 @@ func (e *vmEnvironment) loadCompositeType(location common.Location, typeID inter
 
 	elaboration, err := e.loadDesugaredElaboration(location)
 	if err != nil {
-		return nil
+		// Do not treat a failure to load the program (e.g. a failure of the host) as a missing type
+		panic(err)
 	}
 
 	compositeType := elaboration.CompositeType(typeID)
@@ -510,7 +511,8 @@ func (e *vmEnvironment) loadInterfaceType(location common.Location, typeID inter
 
 	elaboration, err := e.loadDesugaredElaboration(location)
 	if err != nil {
-		return nil
+		// Do not treat a failure to load the program (e.g. a failure of the host) as a missing type
+		panic(err)
 	}
 
 	interfaceType := elaboration.InterfaceType(typeID)
@@ -529,7 +531,8 @@ func (e *vmEnvironment) loadEntitlementType(location common.Location, typeID int
 
 	elaboration, err := e.loadDesugaredElaboration(location)
 	if err != nil {
-		return nil
+		// Do not treat a failure to load the program (e.g. a failure of the host) as a missing type
+		panic(err)
 	}
 
 	entitlementType := elaboration.EntitlementType(typeID)
@@ -548,7 +551,8 @@ func (e *vmEnvironment) loadEntitlementMapType(location common.Location, typeID 
 
 	elaboration, err := e.loadDesugaredElaboration(location)
 	if err != nil {
-		return nil
+		// Do not treat a failure to load the program (e.g. a failure of the host) as a missing type
+		panic(err)
 	}
 
 	entitlementMapType := elaboration.EntitlementMapType(typeID)
